@@ -290,9 +290,12 @@ class Model:
         return tuple(out)
 
     def observe(self, st):
-        # vacuity guard: the shape of the lineage + how many values differ from the initial ones + log sizes
-        return tuple((r.parent, sum(1 for n, v in zip(NAMES, VALUES) if r.values[n] != fz(v)), o[O_LOG][1] > 0, o[O_LOG][0] > o[O_LOG][1])
-                     for r, o in zip(st.refs, st.obs))
+        # vacuity guard; a function of the canonical state only (so the count cannot depend on which history
+        # represents a state): lineage shape, how many values differ from the initial ones, silenced genes,
+        # genes with an approved mutation to roll back
+        init = {n: fz(v) for n, v in zip(NAMES, VALUES)}
+        return tuple((c[0], sum(1 for x in c[1] if init.get(x[0]) != x[1]), sum(1 for _, l in c[2] if l == 0), len(c[4]))
+                     for c in self.canon(st))
 
     # ------------------------------------------------------------------------------------------------
     def step(self, st, op):
@@ -678,6 +681,13 @@ def run(ctx):
     for idx, (profile, roots, depth) in enumerate(plan(ctx.tier)):
         model = Model(ctx.tier, profile, roots)
         res = explore.explore(model, ctx, depth, label=f"{profile}{idx}")
+        if not ctx.violations and not ctx.known_hits:
+            # differential validation of canon() (design §2.1) in a separate shallow pass with a scratch context, so that
+            # a canon mismatch caused by a genuinely broken tree can never pre-empt the VIOLATION report above
+            scratch = common.Ctx(ctx.pid, ctx.tier, ctx.seed)
+            vd = min(depth, 2 if profile == "wide" else (3 if ctx.tier == "quick" else 4))
+            explore.explore(model, scratch, vd, label="v", validate_canon=40 if ctx.tier == "quick" else 200)
+            tot["canon_pairs_validated"] += scratch.stats["v.canon_pairs_validated"]
         tot["states"] += res["states"]
         tot["transitions"] += res["transitions"]
         depths[f"{profile}{idx}"] = {"roots": res["roots"], "depth_completed": res["depth_completed"], "fixpoint": res["fixpoint"],
@@ -721,6 +731,7 @@ def run(ctx):
         fixpoint=False,
         bounds=depths,
         sweep={"genomes": n_cases, "express_calls": n_eval},
+        canon_pairs_validated=tot["canon_pairs_validated"],
     )
     if caps:
         ctx.coverage["caps_hit"] = "; ".join(caps)
